@@ -103,8 +103,12 @@ class G:
 
 # --------------------------------------------------------------------------- op templates
 
-def _const(rng, shape, kind=None):
-    kind = kind or rng.choice(["normal", "normal", "normal", "pos", "neg", "small", "const", "big", "tiny", "rowtiny"])
+CONST_KINDS = ["normal", "normal", "normal", "pos", "neg", "small", "const", "big", "tiny", "rowtiny"]
+BENIGN_KINDS = ["normal", "normal", "normal", "pos", "neg", "small", "const", "big"]
+
+
+def _const(rng, shape, kind=None, kinds=None):
+    kind = kind or rng.choice(kinds or CONST_KINDS)
     n = int(np.prod(shape)) if len(shape) else 1
     r = np.random.RandomState(rng.randrange(2 ** 31))
     if kind == "normal":
@@ -171,7 +175,7 @@ class Grower:
             buf, data = self.rng.choice(self.const_pool[key])
             self.tags.add("shared_buffer")
             return self.g.tensor(self.name(base), shape, data=None, buffer=buf)
-        data = _const(self.rng, shape, kind)
+        data = _const(self.rng, shape, kind, getattr(self, "const_kinds", None))
         t = self.g.tensor(self.name(base), shape, data=data)
         self.const_pool.setdefault(key, []).append((self.g.sg.tensors[t].buffer, data))
         return t
@@ -443,9 +447,10 @@ class Grower:
 
 
 def grow_subgraph(g: G, rng, n_ops, prefix="", sig=None, kinds=None, share=0.0, shared_consts=None, p_unsupported=0.25,
-                  name_hazard=0.0, extra_outputs=0.3, allow_dead=0.1, const_output=0.0):
+                  name_hazard=0.0, extra_outputs=0.3, allow_dead=0.1, const_output=0.0, const_kinds=None):
     g.subgraph(name=(prefix or "main").encode())
     gr = Grower(g, rng, prefix, shared_consts)
+    gr.const_kinds = const_kinds
     # inputs
     r = rng.random()
     if r < 0.55:
